@@ -7,12 +7,15 @@ events" wire format and falcon's public documentation of Response.text/data/medi
     status   ['int', n] | ['line', 'NNN phrase'] | ['digits', 'NNN'] | ['enum', n]
              | ['bytes', 'NNN phrase' or 'NNN']   (assigned as a byte string, as falcon's own suite does)
              | ['strsub', 'NNN phrase' or 'NNN']  (assigned as an instance of a str subclass)
+             | ['strsub_odd', ...] (str subclass with foreign __str__/__format__) | ['strenum', ...] ((str, Enum) member)
+             | ['intenum', n]      (member of an application IntEnum)
     text     None | str            data   None | bytes (latin-1 str in JSON)
     media    ['unset'] | ['set', json value]
     stream   None | {'kind', 'chunks': [bytes...], 'raise_at': k|None, ...}
     sse      None | {'kind', 'events': [ev|None ...], 'raise_at': k|None}      (ASGI only)
 """
 
+import enum
 import http
 import json
 
@@ -24,7 +27,7 @@ TYPELESS = frozenset([204, 304])
 
 def status_code(spec):
     kind, v = spec
-    if kind in ('int', 'enum'):
+    if kind in ('int', 'enum', 'intenum'):
         return int(v)
     return int(v[:3])
 
@@ -33,9 +36,36 @@ class StatusStr(str):
     """A str subclass (e.g. an enum-like constant class of the application) used as a status."""
 
 
+class StatusStrOdd(str):
+    """A str subclass whose __str__/__format__/__repr__ do not return its own text."""
+
+    def __str__(self):
+        return 'StatusStrOdd.MEMBER'
+
+    def __format__(self, spec):
+        return 'formatted'
+
+    def __repr__(self):
+        return '<StatusStrOdd>'
+
+
+STR_ENUM_LINES = ['200 OK', '201 Created', '204 No Content', '304 Not Modified', '404 Not Found', '418 Short And Stout',
+                  '204 Nothing Here', '101 Switching Protocols', '299', '404', '204', '598']
+# class Status(str, enum.Enum): str(Status.CREATED) == 'Status.CREATED', the member IS the str '201 Created'
+StrEnumStatus = enum.Enum('StrEnumStatus', {'S%d' % i: v for i, v in enumerate(STR_ENUM_LINES)}, type=str)
+INT_ENUM_CODES = [200, 204, 304, 404, 418, 299, 101]
+IntEnumStatus = enum.IntEnum('IntEnumStatus', {'C%d' % c: c for c in INT_ENUM_CODES})
+
+
 def status_value(spec):
     """The python object the application assigns to resp.status."""
     kind, v = spec
+    if kind == 'strsub_odd':
+        return StatusStrOdd(v)
+    if kind == 'strenum':
+        return StrEnumStatus(v)
+    if kind == 'intenum':
+        return IntEnumStatus(v)
     if kind == 'enum':
         return http.HTTPStatus(v)
     if kind == 'bytes':
@@ -51,7 +81,7 @@ def status_line_ok(spec, line):
         return False
     if int(line[:3]) != status_code(spec):
         return False
-    if spec[0] == 'line' or (spec[0] in ('bytes', 'strsub') and ' ' in spec[1]):
+    if spec[0] == 'line' or (spec[0] in ('bytes', 'strsub', 'strsub_odd', 'strenum') and ' ' in spec[1]):
         return line == spec[1]      # documented: a status line string is passed through
     return True
 
